@@ -66,8 +66,11 @@ example := conv_chain_identity (22 / 7) (3 / 2) (by norm_num) (by norm_num) .ome
 example := ft_dom_conv (22 / 7) (3 / 2) (by norm_num) (by norm_num) .F .omega xs xs
 
 /-! ### Laplace on jω; inverse ∘ forward -/
-example := fourier_is_laplace_on_jw (22 / 7) (1 / 3) [⟨⟨2, 0⟩, 1, ⟨3, 4⟩⟩, ⟨⟨0, 1⟩, 0, ⟨1, 0⟩⟩] (by decide)
-/-- the stability hypothesis of `fourier_is_laplace_on_jw` is not used by its proof: the same identity for an UNSTABLE term -/
+-- (updated by the C12 engineer after the audit: the formal identity is now stated against C09's `L` without the decorative
+--  hypothesis, and `fourier_is_laplace_on_jw` is the analytic statement that USES stability)
+example := fourier_is_laplace_on_jw_formal (22 / 7) (1 / 3) [⟨⟨2, 0⟩, 1, ⟨3, 4⟩⟩, ⟨⟨0, 1⟩, 0, ⟨1, 0⟩⟩]
+example := fourier_is_laplace_on_jw 2 (3 + 4 * Complex.I) (1 / 3) (by simp)
+/-- the formal identity needs no stability: the same identity for an UNSTABLE term -/
 example : ratValue (22 / 7) (1 / 3) (ft (22 / 7) ([⟨⟨2, 0⟩, 1, ⟨-3, 4⟩⟩].map EPTerm.toTerm))
     = laplaceAt ⟨0, 2 * (22 / 7) * (1 / 3)⟩ [⟨⟨2, 0⟩, 1, ⟨-3, 4⟩⟩] := Lcapy.Fourier.fourier_laplace_aux _ _ _
 
